@@ -168,12 +168,18 @@ func (a *sessionAwareAdapter) Broadcast(header *parser.PacketHeader, v []any, op
 		id := a.yeaster.Yeast()
 		v = append(v, id)
 
+		// The encoder rewrites the header (type, attachment count) and replaces binary
+		// arguments by placeholders in the slice it is given. Log copies, so that the entry
+		// can be encoded again when it is replayed.
+		headerCopy := *header
+		dataCopy := make([]any, len(v))
+		copy(dataCopy, v)
 		packet := &PersistedPacket{
-			Header:    header,
+			Header:    &headerCopy,
 			ID:        id,
 			Opts:      opts,
 			EmittedAt: time.Now(),
-			Data:      v,
+			Data:      dataCopy,
 		}
 		a.packets = append(a.packets, packet)
 		a.mu.Unlock()
